@@ -6,8 +6,9 @@
 (* minimum / maximum (+ exclusive), minLength / maxLength, required,       *)
 (* min/maxProperties, properties, additionalProperties, dependencies,      *)
 (* items (one schema or a list) + additionalItems, min/maxItems,           *)
-(* uniqueItems.  pattern, patternProperties and multipleOf are outside the *)
-(* subset (regular expressions and remainders are not modelled).           *)
+(* uniqueItems, patternProperties for patterns of the shape ^literal$ (both *)
+(* anchors optional).  pattern, other regular expressions and multipleOf   *)
+(* are outside the subset.                                                 *)
 (*                                                                         *)
 (* SchemaWF says when a schema document is well-formed (independently of   *)
 (* the value it is applied to); Valid is defined for well-formed schemas.  *)
@@ -62,6 +63,18 @@ Names(v) == IF v.t = "str" THEN {v.s} ELSE {v.a[i].s : i \in 1..Len(v.a)}
 PathList(v) == v.t = "arr" /\ v.a # <<>> /\ \A i \in 1..Len(v.a) : v.a[i].t = "str" /\ v.a[i].s # ""
 DistinctKeys(f) == \A i, j \in 1..Len(f) : i # j => f[i][1] # f[j][1]
 
+(* patternProperties: the modelled patterns are a literal of letters, digits and '_' with an optional ^ in front *)
+(* and an optional $ behind (prefix, suffix, exact and substring tests on the UTF-8 bytes of the member name).   *)
+WordByte(b) == (b >= 48 /\ b <= 57) \/ (b >= 65 /\ b <= 90) \/ (b >= 97 /\ b <= 122) \/ b = 95
+PatParts(p) == LET c == Str[p].c
+                   st == Len(c) >= 1 /\ c[1] = 94
+                   en == Len(c) >= (IF st THEN 2 ELSE 1) /\ c[Len(c)] = 36
+               IN [st |-> st, en |-> en, core |-> SubSeq(c, IF st THEN 2 ELSE 1, IF en THEN Len(c) - 1 ELSE Len(c))]
+PatWF(p) == \A i \in 1..Len(PatParts(p).core) : WordByte(PatParts(p).core[i])
+PatMatch(p, name) ==
+  LET pp == PatParts(p)  n == Str[name].c  k == Len(pp.core) IN
+  \E o \in 0..(Len(n) - k) : (pp.st => o = 0) /\ (pp.en => o + k = Len(n)) /\ (\A i \in 1..k : n[o + i] = pp.core[i])
+
 RECURSIVE SchemaWF(_)
 KeywordWF(s, k, v) ==
   CASE k = "type" -> NameList(v, DOMAIN JsonClass)
@@ -82,7 +95,9 @@ KeywordWF(s, k, v) ==
     [] k = "dependencies" -> v.t = "doc" /\ \A i \in 1..Len(v.f) :
                                 /\ v.f[i][1] # ""
                                 /\ (v.f[i][2].t = "doc" /\ SchemaWF(v.f[i][2])) \/ PathList(v.f[i][2])
-    [] k \in {"multipleOf", "pattern", "patternProperties"} -> FALSE     \* outside the modelled subset
+    [] k = "patternProperties" -> v.t = "doc" /\ DistinctKeys(v.f) /\ \A i \in 1..Len(v.f) :
+                                     PatWF(v.f[i][1]) /\ v.f[i][2].t = "doc" /\ SchemaWF(v.f[i][2])
+    [] k \in {"multipleOf", "pattern"} -> FALSE                          \* outside the modelled subset
     [] OTHER -> TRUE                                                      \* annotations (title, description ...) are ignored
 SchemaWF(s) ==
   /\ s.t = "doc"
@@ -90,6 +105,11 @@ SchemaWF(s) ==
   /\ ~(HasField(s, "type") /\ HasField(s, "bsonType"))
   /\ \A i \in 1..Len(s.f) : KeywordWF(s, s.f[i][1], s.f[i][2])
 
+(* a member that "properties" names or a pattern of "patternProperties" matches is not an additional one *)
+Covered(s, name) ==
+  \/ (HasField(s, "properties") /\ HasField(Field(s, "properties"), name))
+  \/ (HasField(s, "patternProperties") /\ \E j \in 1..Len(Field(s, "patternProperties").f) :
+         PatMatch(Field(s, "patternProperties").f[j][1], name))
 Flag(s, k) == HasField(s, k) /\ Field(s, k).b
 Present(doc, name) == Get(doc, PathOf(name)) # Missing
 
@@ -118,8 +138,10 @@ KeywordOK(s, k, kv, v, kf) ==
           IF kv.f[i][2].t = "doc" THEN Present(v, kv.f[i][1]) => ValidX(kv.f[i][2], v, kf)
           ELSE (kf \/ Present(v, kv.f[i][1])) => \A j \in 1..Len(kv.f[i][2].a) : Present(v, kv.f[i][2].a[j].s)
     [] k = "properties" -> v.t = "doc" => \A i \in 1..Len(v.f) : HasField(kv, v.f[i][1]) => ValidX(Field(kv, v.f[i][1]), v.f[i][2], kf)
+    [] k = "patternProperties" -> v.t = "doc" => \A i \in 1..Len(v.f) : \A j \in 1..Len(kv.f) :
+          PatMatch(kv.f[j][1], v.f[i][1]) => ValidX(kv.f[j][2], v.f[i][2], kf)
     [] k = "additionalProperties" -> v.t = "doc" => \A i \in 1..Len(v.f) :
-          (~(HasField(s, "properties") /\ HasField(Field(s, "properties"), v.f[i][1]))) =>
+          ~Covered(s, v.f[i][1]) =>
              IF kv.t = "bool" THEN kv.b ELSE ValidX(kv, v.f[i][2], kf)
     [] k = "items" -> v.t = "arr" =>
           IF kv.t = "doc" THEN \A i \in 1..Len(v.a) : ValidX(kv, v.a[i], kf)
